@@ -486,7 +486,7 @@ fn bitboards(ctx: &mut Ctx) {
     if ctx.shard == 0 && heavy {
         ctx.exhaustive_parts.push("bitboard algebra on all 65,536 pairs of subsets of an 8-square universe at six embeddings".into());
     }
-    let n = ctx.budget(400_000, 40_000_000);
+    let n = ctx.budget(6_000_000, 80_000_000);
     for i in 0..n {
         let (a, b) = match i % 4 {
             0 => (ctx.rng.next_u64(), ctx.rng.next_u64()),
